@@ -132,7 +132,8 @@ func init() {
 			"as 1..6 buffers cut at random/chunk-boundary offsets are compressed by the client and decoded by an " +
 			"independent Hadoop block-stream reader and by the client; (b) conforming streams written by the independent " +
 			"writer with 1..4 blocks x 1..6 chunks of arbitrary sizes are decoded by the client; (c) every truncation and " +
-			"every single-byte corruption (all 255 values on framing bytes, 3 sampled values on body bytes) of small " +
+			"every single-byte corruption (all 255 values on framing bytes, 3 sampled values on body bytes) and structural corruptions " +
+			"(stream ending in a zero chunk length, chunk missing, chunk twice, empty chunk inserted) of small " +
 			"streams, sampled offsets of large ones: outcome must be error or the original bytes. distinct = distinct " +
 			"(size class, buffers, chunking) for round trips and distinct (stream, offset, value) for corruptions; all non-trivial",
 		Assumptions: []string{"independent codec = github.com/golang/snappy block format + framing re-implemented in /verif/sim/blockcodec.go"},
@@ -144,7 +145,7 @@ func init() {
 		},
 		Floors: func(tier string) map[string]int64 {
 			return map[string]int64{"roundtrips": 2000, "conforming_streams": 500, "corruptions": 100000,
-				"truncations": 2000, "multi_chunk_payloads": 50, "corrupt_total-length": 1000, "corrupt_chunk-length": 1000}
+				"truncations": 2000, "structural_corruptions": 100, "multi_chunk_payloads": 50, "corrupt_total-length": 1000, "corrupt_chunk-length": 1000}
 		},
 		Run: runC15,
 	})
@@ -313,6 +314,37 @@ func runC15(c *fw.Ctx) {
 						fmt.Sprintf("cut at %d (a block boundary) of %d: decoded %d of %d bytes, err=nil", cut, len(s.wire), len(out), len(s.payload)), nil)
 				} else {
 					c.Violate(id, "truncate:silent", fmt.Sprintf("cut at %d of %d: decoded %d bytes, err=nil", cut, len(s.wire), len(out)), s.wire[:cut])
+				}
+			}
+		}
+		// structural corruptions (more than one byte): the stream ends in the
+		// middle of a block with a zero chunk length, a chunk is missing, a chunk
+		// occurs twice. None can decode to the original, all must be errors.
+		for ci, o := range s.lay.ChunkLenOffs {
+			rg := s.lay.BodyRanges[ci]
+			muts := map[string][]byte{
+				"ends-with-zero-chunk-length": append(append([]byte{}, s.wire[:o]...), 0, 0, 0, 0),
+				"chunk-missing":               append(append([]byte{}, s.wire[:o]...), s.wire[rg[1]:]...),
+				"chunk-twice":                 append(append(append([]byte{}, s.wire[:rg[1]]...), s.wire[o:rg[1]]...), s.wire[rg[1]:]...),
+				"zero-chunk-length-inserted":  append(append(append([]byte{}, s.wire[:o]...), 0, 0, 0, 0), s.wire[o:]...),
+			}
+			for what, mut := range muts {
+				c.Count("corruptions", 1)
+				c.Count("structural_corruptions", 1)
+				c.EvalH(fw.Hash64(fmt.Sprintf("st|%d|%d|%d|%s", c.Batch, si, ci, what)), true)
+				id := fmt.Sprintf("struct-%d-%d-%s", si, ci, what)
+				out, err, pnk := clientDecompress(mut)
+				switch {
+				case pnk != nil:
+					c.Violate(id, "decompress:panic:"+what, fmt.Sprintf("chunk %d of a %d-byte stream: panic %v", ci, len(s.wire), pnk), map[string]any{"stream": s.wire, "mutated": mut})
+				case err != nil:
+					c.Count("outcome_error", 1)
+				case what == "zero-chunk-length-inserted" && bytes.Equal(out, s.payload):
+					// an empty chunk that a decoder skips is harmless
+					c.Count("outcome_original_bytes", 1)
+				default:
+					c.Violate(id, "corrupt:silent-wrong-data:"+what, fmt.Sprintf("chunk %d (length field at %d) of a %d-byte stream: decoded %d bytes (original %d), err=nil",
+						ci, o, len(s.wire), len(out), len(s.payload)), map[string]any{"stream": s.wire, "mutated": mut})
 				}
 			}
 		}
